@@ -534,13 +534,13 @@ def impl_cpx_session(chunks, takes, events):
                 if not gate.closed:
                     gate.closed = True
                     gate.tokens.release()
-                    router.join(10)
+                    router.join(1.5)
         alive_before_cleanup = router.is_alive()
         if not gate.closed:                      # end of the session: let the thread go
             router._connected = False
             gate.closed = True
             gate.tokens.release()
-        router.join(10)
+        router.join(1.5)
     out = [sock.pending(), 1 if alive_before_cleanup else 0] + coqrun.flat(obs)
     for f in QFS:
         q = router._rxQueues.get(f)
@@ -1055,6 +1055,7 @@ def tie(ctx):
                     'chunks': [list(c) for c in chunks], 'events': evs})
         if info['thread_alive_after']:
             dis.append(dict(ccs[-1], what='router thread still alive after the session was closed'))
+            break
         if _inside_header(cuts, bounds):
             nontriv.add(_h(['cpx', [list(c) for c in chunks], evs]))
     run_blocks('c18h', terms, exp, lambda bi: ccs[bi], 30, header=HEADER_C)
@@ -1464,7 +1465,7 @@ def oracle(ctx, deep=False):
     def chk(cls, case):
         nonlocal n
         n += 1
-        if cls in seen and not deep:
+        if cls in seen and (not deep or cls == 'cpx_facade_violated'):     # (a failing facade session costs join timeouts)
             return
         f = _run_check(cls, case)
         if f is not None:
